@@ -113,6 +113,64 @@ def w_proj(job):
                        'entry_points': job['eps'][:2], 'l_out_attrs': L_MENU[3], 'r_out_attrs': R_MENU[4]}}
 
 
+def w_special(job):
+    """Header and projection when (a) the same DataFrame object is passed as both tables with different
+    attribute lists, (b) the regular result is empty (no match, no rows, all missing) with and without
+    missing values in the join columns."""
+    from mcx import sched
+    sched.install()
+    viol = []
+    calls = nontrivial = 0
+    outs = {}
+    T = pd.DataFrame({'key': [3, 1, 2, 4], 'name': pd.Series(['a b', 'a b c', 'b', 'a'], dtype=object),
+                      'city': pd.Series(['x', None, 'z', 'w'], dtype=object), 'zip': [10.0, 20.0, float('nan'), 40.0]})
+    NM_L = pd.DataFrame({'key': [1, 2], 'name': pd.Series(['a b', 'c'], dtype=object), 'city': pd.Series(['x', 'y'], dtype=object)})
+    NM_R = pd.DataFrame({'key': [7, 8], 'name': pd.Series(['zz', 'yy qq'], dtype=object), 'zip': [1.0, 2.0]})
+    EMPTY = pd.DataFrame({'key': pd.Series([], dtype='int64'), 'name': pd.Series([], dtype=object),
+                          'zip': pd.Series([], dtype='float64')})
+    ALLM = pd.DataFrame({'key': [5, 6], 'name': pd.Series([None, None], dtype=object), 'zip': [1.0, 2.0]})
+    scenarios = [('same object as both tables', T, T, ['city'], ['zip', 'city']),
+                 ('same object as both tables', T, T, ['zip', 'name'], ['city']),
+                 ('no pair qualifies, no missing value', NM_L, NM_R, ['city'], ['zip']),
+                 ('right table without rows', NM_L, EMPTY, ['city'], ['zip']),
+                 ('left table without rows', EMPTY, NM_R, ['zip'], ['zip']),
+                 ('all right values missing', NM_L, ALLM, ['city'], ['zip'])]
+    for ep in job['eps']:
+        for (label, L, R, lo, ro) in scenarios:
+            for am in (False, True):
+                for score in (True, False):
+                    for (lo_, ro_) in ((lo, ro), (None, None)):
+                        for nj in (1, 2):
+                            sc = score and has_score(ep)
+                            sched.CTL.reset()
+                            out = run_ep(ep, L, R, nj, ae=True, am=am, lo=lo_, ro=ro_, score=sc, lkey='key', rkey='key',
+                                         lattr='name', rattr='name', t=job.get('t'))
+                            calls += 1
+                            la, ra = dedup(lo_, 'key') or [], dedup(ro_, 'key') or []
+                            header = ['_id', 'l_key', 'r_key'] + ['l_' + a for a in la] + ['r_' + a for a in ra] + \
+                                     (['_sim_score'] if sc else [])
+                            probs = []
+                            if list(out.columns) != header:
+                                probs.append('columns %r, expected %r' % (list(out.columns), header))
+                            else:
+                                lsrc = {cell(r['key']): r for r in L.to_dict('records')}
+                                rsrc = {cell(r['key']): r for r in R.to_dict('records')}
+                                for row in out.values.tolist():
+                                    exp = [lsrc[cell(row[1])][a] for a in la] + [rsrc[cell(row[2])][a] for a in ra]
+                                    if [cell(v) for v in row[3:3 + len(exp)]] != [cell(v) for v in exp]:
+                                        probs.append('row %r projects %r, source rows have %r' % (row[:3], row[3:3 + len(exp)], exp))
+                                        break
+                                nontrivial += 1
+                            outs['rows>0' if len(out) else 'rows=0'] = 1
+                            if probs and len(viol) < MAXV:
+                                viol.append({'key': 'C11|special|%s|%s|am%s|score%s|%s|nj%d' % (ep, label, am, sc, lo_, nj),
+                                             'what': 'C11: %s, %s, allow_missing=%s, out_sim_score=%s, l_out_attrs=%s, '
+                                                     'r_out_attrs=%s, n_jobs=%d: %s' % (ep, label, am, sc, lo_, ro_, nj, probs[0]),
+                                             'detail': {}})
+    return {'cases': calls, 'calls': calls, 'nontrivial': nontrivial, 'outcomes': outs, 'viol': viol,
+            'sample': {'entry_points': job['eps'], 'scenarios': [s_[0] for s_ in scenarios]}}
+
+
 def layers(tier):
     quick = tier == 'quick'
     sd = seed()
@@ -151,6 +209,11 @@ def layers(tier):
     Ls.append(Layer('join-attribute', 'checks.c11:w_proj', jobs,
                     'same attribute lists requested while the join attribute changes between consecutive calls '
                     '(ls/p on the left, rs/w on the right): projection positions depend on which attribute is joined on',
+                    min_nontrivial=100, chunksize=1))
+    Ls.append(Layer('self-join-and-empty-results', 'checks.c11:w_special', [{'eps': [ep]} for ep in eps],
+                    'the same DataFrame object passed as both tables with different attribute lists; regular result '
+                    'empty (no qualifying pair and no missing value, a table without rows, all values missing) x '
+                    'allow_missing x out_sim_score x attribute lists x n_jobs 1,2 x 11 entry points',
                     min_nontrivial=100, chunksize=1))
     from checks.configx import filter_config_layer
     Ls.append(filter_config_layer(['C11'], quick))
